@@ -147,6 +147,19 @@ def wf(tc):
     return bad, extra
 
 
+def stores(tc):
+    """the two stores in the vocabulary of Model/C15_TCWrap.v"""
+    t = Lb.T()
+    td, nt = tc.__dict__["_tensordict"], tc.__dict__["_non_tensordict"]
+    out = {"td": {}, "nt": {}}
+    for k in td.keys():
+        v = td.get(k)
+        out["td"][k] = "nt" if isinstance(v, (t["NTD"], t["NTS"])) else ("c" if isinstance(v, t["Base"]) or Lb._is_tc(v) else "t")
+    for k, v in nt.items():
+        out["nt"][k] = "none" if v is None else "val"
+    return out
+
+
 def attr_cases(R):
     rng = R.rng
     out = []
@@ -191,11 +204,12 @@ def run_attr(case):
         g = call(lambda: tc.get(f))
         if g[0] != "ok" or not same_obj_or_value(g[1], want):
             probs.append(f"tc.get({f!r}) differs from key access: {repr(g)[:120]}")
-        return ("fail" if probs else "ok"), probs, flags, {}
+        return ("fail" if probs else "ok"), probs, flags, {"pre": stores(tc), "got": where if r[0] == "ok" else ["raise", r[1]]}
     # assignment
     v = mat_value(VALUES[case["vkind"]]) if "vkind" in case else None
     locked = bool(tc.__dict__["_tensordict"].is_locked)
     frozen = "frozen" in Lb.CLASS_INFO[cname][1]
+    pre = stores(tc)
     before = {k: key_access(tc, k) for k in fields}
     if op == "setattr":
         r = call(lambda: setattr(tc, f, v))
@@ -251,7 +265,7 @@ def run_attr(case):
         if before[k][0] != after[k][0] or not same_obj_or_value(before[k][1], after[k][1]):
             probs.append(f"assignment to {f!r} changed field {k!r}")
     flags.append("readback:" + want[0])
-    return ("fail" if probs else "ok"), probs, flags, {}
+    return ("fail" if probs else "ok"), probs, flags, {"pre": pre, "post": stores(tc), "set-ok": True}
 
 
 # ------------------------------------------------------------------------------------------------ from_tensordict stream
